@@ -66,6 +66,7 @@ type Conn struct {
 	wmode     int32 // WriteMode, atomic so that a fault injector can flip it
 	failAt    int64 // fail the k-th write (1-based); 0 = never
 	wcount    int64
+	wdelay    int64 // nanoseconds each accepted write takes (a slow reader on the other side)
 	WriteErr  error
 	notify    chan struct{} // optional, non-blocking tick per write (nil in -race runs)
 
@@ -163,6 +164,9 @@ func (c *Conn) Write(p []byte) (int, error) {
 		}
 	}
 	rec := WriteRec{T: time.Now(), Data: append([]byte(nil), p...)}
+	if d := atomic.LoadInt64(&c.wdelay); d > 0 {
+		time.Sleep(time.Duration(d))
+	}
 	c.wmu.Lock()
 	c.writes = append(c.writes, rec)
 	c.wmu.Unlock()
@@ -174,6 +178,9 @@ func (c *Conn) Write(p []byte) (int, error) {
 	}
 	return len(p), nil
 }
+
+// SetWriteDelay makes every accepted write take d (the peer reads slowly).
+func (c *Conn) SetWriteDelay(d time.Duration) { atomic.StoreInt64(&c.wdelay, int64(d)) }
 
 // SetWriteMode flips the write side between accepting and stalling.
 func (c *Conn) SetWriteMode(m WriteMode) { atomic.StoreInt32(&c.wmode, int32(m)) }
